@@ -3,6 +3,7 @@ import PqModel.DeltaGo
 import PqModel.DeltaKernel
 import PqModel.DeltaConf
 import PqModel.DeltaUnpack
+import PqModel.DeltaAmd64
 
 /-! Ops of C04 / DELTA encodings.
 
@@ -19,6 +20,8 @@ import PqModel.DeltaUnpack
   `notok` (the description is not a well-formed `ConfStream`): bytes and meaning of a stream of the conformant
   family (PqModel/DeltaConf.lean). `<blocks>`: `-` or blocks separated by `|`, each `<min delta>:<minis>:<stale>`,
   `<minis>` separated by `;`, each `<width>/<packed values>`; `<stale>` = width bytes of the unneeded miniblocks.
+* `dba.godecamd64 <hex>` -> `ok <values>` | `err <class>`: mirror of `DecodeByteArray` as the assembly build runs it
+  (amd64 Go wrapper with the AVX2 kernels replaced by their contract, PqModel/DeltaAmd64.lean)
 * `delta.unpack32 <width> <n> <hex>` / `delta.unpack64 …` -> `ok <unsigned values>`: the mirror of the portable
   `bitpack.Unpack` kernel (`goUnpackInt32` / `goUnpackInt64`) reading `n` values
 Value lists: comma separated hex strings, `e` = empty value, `-` = empty list. -/
@@ -102,6 +105,13 @@ def handle (toks : List String) : Option String :=
   match toks with
   | ["delta.conf32", bs, m, t, f, blocks] => some (confOp 32 bs m t f blocks)
   | ["delta.conf64", bs, m, t, f, blocks] => some (confOp 64 bs m t f blocks)
+  | ["dba.godecamd64", h] => some <|
+    match parseHex? h with
+    | some bs =>
+      match goDecodeDBAamd64 (bytesIn bs) with
+      | .ok vs => s!"ok {showVals vs}"
+      | .error e => s!"err {goErrName e}"
+    | none => "bad-op"
   | ["delta.unpack32", w, n, h] => some <|
     match parseNat? w, parseNat? n, parseHex? h with
     | some w, some n, some bs => s!"ok {showList toString (PqModel.Rle.goUnpackInt32 w n (bytesIn bs))}"
